@@ -45,26 +45,36 @@ func (w *vBufWriter) Write(p []byte) (int, error) {
 }
 
 // zStreamValue: menu of values; shared is an object also sent by other messages of the same stream.
+// zSmall: an arbitrary int32; in the quick tier restricted to one wire form (forms are C07's subject).
+func zSmall(tag string) int32 {
+	x := vInt32(tag)
+	if vTier() == 0 {
+		vAssume(x >= 0)
+		vAssume(x <= 40)
+	}
+	return x
+}
+
 func zStreamValue(kind int, tag string, shared *ZInner) interface{} {
 	switch kind {
 	case 0:
-		return vInt32(tag)
+		return zSmall(tag)
 	case 1:
-		return vText(tag, 1)
+		return "t" + string(rune('a'+zSmall(tag)%26))
 	case 2:
-		return &ZInner{N: vInt32(tag), S: "s"}
+		return &ZInner{N: zSmall(tag), S: "s"}
 	case 3:
-		return []int32{1, vInt32(tag)}
+		return []int32{1, zSmall(tag)}
 	case 4:
 		return shared
 	case 5:
-		return &ZOuter{A: vInt32(tag), In: ZInner{N: 1, S: "i"}, P: shared, Z: 2}
+		return &ZOuter{A: zSmall(tag), In: ZInner{N: 1, S: "i"}, P: shared, Z: 2}
 	case 6:
-		return int64(vInt32(tag)) << 20
+		return int64(zSmall(tag)) << 20
 	case 7:
-		return []interface{}{"x", vInt32(tag)}
+		return []interface{}{"x", zSmall(tag)}
 	case 8:
-		return map[string]int32{"k": vInt32(tag)}
+		return map[string]int32{"k": zSmall(tag)}
 	default:
 		return []byte{1, 2, 3}
 	}
@@ -116,21 +126,7 @@ func H_C06_stream() {
 		n = 3
 	}
 	shared := &ZInner{N: 42, S: "shared"}
-	tm, nm := vExtract(&ZOuter{P: &ZInner{}})
-	t2, n2 := vExtract([]int32{})
-	for k, x := range t2 {
-		tm[k] = x
-	}
-	for k, x := range n2 {
-		nm[k] = x
-	}
-	t3, n3 := vExtract(map[string]int32{"k": 1})
-	for k, x := range t3 {
-		tm[k] = x
-	}
-	for k, x := range n3 {
-		nm[k] = x
-	}
+	tm, nm := vExtractAll(&ZOuter{P: &ZInner{}}, []int32{}, map[string]int32{"k": 1})
 	kinds := make([]int, n)
 	vals := make([]interface{}, n)
 	for i := range vals {
@@ -189,6 +185,13 @@ func H_C06_stream() {
 			t := reflect.TypeOf(got)
 			vAssert("documented-type", t != _refHolderType && t != reflect.TypeOf(&_refHolder{}) && t != reflect.TypeOf(reflect.Value{}))
 		}
-		vAssert("same-value", zStreamEq(kinds[i], vals[i], got))
+		// a map of an unnamed Go map type held in an interface is written untyped and comes back as
+		// map[interface{}]interface{} (known finding): while it is open, its framing and entries are checked
+		if kinds[i] == 8 && vIsOpen("C06-bare-map-loses-go-type") {
+			m, ok := got.(map[interface{}]interface{})
+			vAssert("same-entries", ok && len(m) == 1 && m["k"] == interface{}(vals[i].(map[string]int32)["k"]))
+		} else {
+			vAssert("same-value", zStreamEq(kinds[i], vals[i], got))
+		}
 	}
 }
